@@ -84,7 +84,7 @@ pub fn mal_class(m: &crate::wire::Malform) -> String {
         VersionToken(v) if v == "HTTP/2.0" || v == "HTTP/3.0" => "version-above-1.1".to_string(),
         VersionToken(_) => "unrecognised-version-token".to_string(),
         HeaderNoColon { .. } => "header-without-colon".to_string(),
-        NonAscii { place: Place::RequestLine, .. } => "non-ascii-request-line".to_string(),
+        NonAscii { place: Place::RequestLine, .. } | NonAscii { place: Place::RequestLineEnd, .. } => "non-ascii-request-line".to_string(),
         NonAscii { place: Place::HeaderName(_), .. } => "non-ascii-header-name".to_string(),
         NonAscii { place: Place::HeaderValue(_), .. } => "non-ascii-header-value".to_string(),
         Expect(_) => "unsupported-expect".to_string(),
